@@ -21,6 +21,11 @@ NA = {
 PENDING_REASON = "claimed in DESIGN.md; its check is still under construction (moves to checks[] when its command exists)"
 
 CHECKS = {
+"C16": dict(
+  text="Seeded exploration (deterministic simulation): the hash-iteration order of every map keyed by interned strings is put behind a seeded salt seam, and the evaluation history of the thread and of long-lived states (succeeding, failing and frame-limit-cut-off evaluations, pre-interned string pools, fresh/long-lived/second state) is generated per run; the target program's output or error text and its std.trace event list must be byte-identical to a pristine-thread reference run. Fresh-process runs of the shipped binary under ASLR complement the salted runs. A clean batch is evidence, not proof.",
+  note="Trusted: salted content hashing permutes the same maps address hashing perturbs in production; the pristine reference run defines the expected bytes (this check does not judge what the output should be). Outcomes decided by an explicit frame limit are compared only up to 'stopped by the limit or equal to the unlimited result' because memoised values legitimately need fewer frames. Known finding F1 is matched by its exact signature only.",
+  technique="deterministic simulation: seeded hash-order salt, evaluation histories and state ages vs a pristine reference run (self-consistency oracle)",
+  design="§5.5"),
 "C07": dict(
   text="Seeded exploration (deterministic simulation): the real import machinery (State::import_resolved*, import expressions, TLA imports, file cache, object field caches) runs against a simulated disk behind the ImportResolver seam with address-based fault injection (resolve/load errors, vanishing files, corrupt reads, files replaced right after being read, sticky faults), over histories of operations on long-lived states; every operation is compared with an executable model of the file DSL (fresh-state-on-snapshot semantics), with a real fresh state, with at-most-once read/evaluate oracles over the seam log, and with quiescence invariants read through guarded accessors. A clean batch is evidence, not proof.",
   note="Trusted: the model of the generated file DSL (jrsim/src/c07.rs); the guarded read-only accessors; scenario c07_m1 stubs the disk and path search (SimFs), the real FileImportResolver is exercised by c07_m2/CLI runs when present. Known finding F2 (memoised errors behind lazy import fields) is matched by its exact signature only.",
